@@ -234,6 +234,37 @@ def shard(ctx):
             elif ast != base_ast:
                 ctx.violation("combination-ast-differs", "combination parses to a different program\n--- canonical\n%s--- variant\n%s" % (canon, text), case)
 
+    # ---- an explicit leading `this.` in every syntactic position, against a document whose enclosing levels carry the same key names
+    #      (so that resolving `this` against the wrong value changes the verdict)
+    if ctx.mine(3):
+        tdoc = {"k": "b", "t": "B", "v": 2, "l": [{"k": "a", "v": 1}, {"k": "b", "v": 2}], "m": {"x": {"t": "A", "v": 1, "l": [{"k": "a", "v": 1}]}, "y": {"t": "B", "v": 2, "l": []}}}
+        tdocs = json.dumps(tdoc)
+        pairs = [('l[ k == "a" ].v == 1', 'l[ this.k == "a" ].v == 1'), ('l[ k == "a" ].v == 2', 'l[ this.k == "a" ].v == 2'),
+                 ('m[ t == "A" ].v == 1', 'm[ this.t == "A" ].v == 1'), ('m.*[ t == "B" ].v == 1', 'm.*[ this.t == "B" ].v == 1'),
+                 ('m[ t == "A" ].l[ k == "a" ].v == 1', 'm[ this.t == "A" ].l[ this.k == "a" ].v == 1'),
+                 ('l[ k == "zz" ] empty', 'l[ this.k == "zz" ] empty'), ('some l[*].v == 2', 'some this.l[*].v == 2'), ('v == 2', 'this.v == 2'),
+                 ('l[*] {\n        v >= 1\n        k in ["a", "b"]\n    }', 'l[*] {\n        this.v >= 1\n        this.k in ["a", "b"]\n    }'),
+                 ('m.* {\n        l[ k == "a" ] !empty or t == "B"\n    }', 'm.* {\n        this.l[ this.k == "a" ] !empty or this.t == "B"\n    }'),
+                 ('when l[ k == "b" ].v == 2 {\n        v == 2\n    }', 'when this.l[ this.k == "b" ].v == 2 {\n        this.v == 2\n    }'),
+                 ('l[ k == "a" or v == 2 ].v >= 1', 'l[ this.k == "a" or this.v == 2 ].v >= 1'), ('m[ l !empty ].t == "A"', 'm[ this.l !empty ].t == "A"')]
+        A = "".join("rule p%d {\n    %s\n}\n" % (i, a_) for i, (a_, b_) in enumerate(pairs))
+        B = "".join("rule p%d {\n    %s\n}\n" % (i, b_) for i, (a_, b_) in enumerate(pairs))
+        sa, ra = statuses(ctx.w, A, tdocs)
+        sb, rb = statuses(ctx.w, B, tdocs)
+        ctx.res.cases += 1
+        ctx.res.counts["this-matrix"] += len(pairs)
+        if not isinstance(sa, dict) and not isinstance(sb, dict):
+            ctx.inconclusive("this-matrix-does-not-evaluate")
+        elif not isinstance(sa, dict) or not isinstance(sb, dict):
+            if sa != sb:
+                ctx.violation("this-matrix:error", "explicit `this.` changes an evaluation into an error: %s vs %s" % (sa, sb), {"kind": "pair", "a": A, "b": B, "data": tdocs})
+        else:
+            bad = sorted(k for k in sa if sa[k] != sb.get(k))
+            if bad:
+                i = int(bad[0][1:])
+                ctx.violation("this-matrix:verdict", "`%s` is %s but `%s` is %s" % (pairs[i][0], sa[bad[0]], pairs[i][1], sb.get(bad[0])), {"kind": "pair", "a": A, "b": B, "data": tdocs})
+            else:
+                ctx.res.distinct.add(("this-matrix", tuple(sorted(set(sa.values())))))
     # ---- type block == Resources.*[ Type == 'T' ] { ... } ; file-level clauses == rule default
     n = 120 if ctx.quick else 4000
     o2 = gen.Opts(refs=False, max_lines=3)
